@@ -820,3 +820,6 @@ def tag(line, impl, model):
 
 def exhaustive(tier):
     return tier == "thorough"   # all 65536 (version/command, family/transport) octet pairs; every prefix of every generated header
+
+
+KNOWN_MUST_MATCH_MODEL = True   # inside a known finding's region the observation must still equal the model's (which reproduces the listed defect); see lib/vf/run.py
